@@ -727,6 +727,11 @@ struct TemplateCore {
                             LoopTag &tag  = tag_bit->GetLoopTag();
                             tag.EndOffset = (finder.GetOffset() - TagPatterns::LoopSuffixLength);
                             loop_tag      = tag.Parent;
+
+                            if (tag.EndOffset < (tag.Offset + tag.ContentOffset)) {
+                                // The '>' that ended the opening tag belongs to this closing tag: not a loop.
+                                storage->Drop(SizeT{1});
+                            }
                         }
                     }
 
